@@ -169,11 +169,95 @@ func c19RecordPairs(rec *vh.Recorder, d *verifDag, dagStr string, dagClasses []s
 	rec.Evals(n*n*(2*nImpl-1) - recorded - 1)
 }
 
+const c19LongRule = "long-history shape of C18 (chain of 260-520 / 300-900 commits whose closure is a multi-level prolly tree, 1-2 short branches, merges in both parent orders, generated children / merges of merges on top); every ordered pair of the focus commits (all commits off the chain, root, chain tip, a deep chain commit, 4 sampled chain commits) goes through FindCommonAncestor, and every ordered pair of the commits on top through findCommonAncestorUsingParentsList and FindClosureCommonAncestor (set / lazy closure); same oracle as the small DAGs (member of the brute-force set of maximal-height common ancestors, found iff the set is non-empty, symmetric, repeatable). Non-trivial pair: both commits are merges/children on top of the long history, or the pair has >= 2 maximal-height common ancestors; up to 8 recorded per DAG."
+
+func c19LongCase(t *rapid.T, rec *vh.Recorder) {
+	ctx := context.Background()
+	d := verifGenBigDag(t)
+	b := verifBuildBigDag(t, ctx, d)
+	b.reopen()
+	h, anc := d.heights(), d.ancestors()
+	idx := map[hash.Hash]int{}
+	for i, a := range b.addrs {
+		idx[a] = i
+	}
+	load := func(i int) *Commit {
+		c, err := LoadCommitAddr(ctx, b.db, b.addrs[i])
+		if err != nil {
+			t.Fatalf("LoadCommitAddr(%d): %v", i, err)
+		}
+		return c
+	}
+	ns := b.db.nodeStore()
+	isExtra := map[int]bool{}
+	for _, x := range d.extras {
+		isExtra[x] = true
+	}
+	recorded, evals := 0, 0
+	for f, fd := range c19Finders {
+		set := d.focus
+		if f > 0 {
+			set = d.extras
+		}
+		res := map[[2]int]int{}
+		for _, a := range set {
+			ca := load(a)
+			for _, bb := range set {
+				best, any := verifBigMaxCommon(anc, h, a, bb)
+				got, ok, err := fd.find(ctx, ca, load(bb), b.db, ns)
+				evals++
+				if err != nil {
+					t.Fatalf("%s(%d,%d): %v (%s)", fd.name, a, bb, err, d.desc)
+				}
+				if ok != any {
+					t.Fatalf("%s(%d,%d): ok=%v but common ancestors exist=%v (%s)", fd.name, a, bb, ok, any, d.desc)
+				}
+				r := -1
+				if ok {
+					j, known := idx[got]
+					if !known {
+						t.Fatalf("%s(%d,%d) returned %s which is no commit of the graph (%s)", fd.name, a, bb, got, d.desc)
+					}
+					in := false
+					for _, x := range best {
+						in = in || x == j
+					}
+					if !in {
+						t.Fatalf("%s(%d,%d) = commit %d (height %d); the maximal-height common ancestors are %v (height %d) (%s)", fd.name, a, bb, j, h[j], best, h[best[0]], d.desc)
+					}
+					r = j
+				}
+				res[[2]int{a, bb}] = r
+				if f == 0 {
+					nt := (isExtra[a] && isExtra[bb] && a != bb) || len(best) >= 2
+					if nt && recorded < 8 && (a+bb)%3 != 0 {
+						recorded++
+						rec.Case(fmt.Sprintf("%s | pair (%d,%d) maximal common ancestors %v", d.desc, a, bb, best), true, "pair:on_top_of_long_history")
+					}
+				}
+			}
+		}
+		if fd.symmetric {
+			for k, v := range res {
+				if res[[2]int{k[1], k[0]}] != v {
+					t.Fatalf("%s depends on argument order: (%d,%d) -> commit %d, swapped -> commit %d (%s)", fd.name, k[0], k[1], v, res[[2]int{k[1], k[0]}], d.desc)
+				}
+			}
+		}
+	}
+	rec.Evals(evals - recorded)
+	rec.Case(d.desc, false, "dags")
+}
+
 func TestVerif_C19(t *testing.T) {
 	rec := vh.NewRecorder("C19", "datas", "exploration", c19DatasRule,
 		"the closure-based and the parents-list implementation are each compared with the set of maximal-height common ancestors, never with each other (their tie-breaks differ by design)",
 		"FindClosureCommonAncestor is asymmetric by signature; only membership, ok and repeatability are required of it",
 		"both commits live in the same database (the two-reader form used by pull is not explored)")
 	defer rec.Write(t)
+	recLong := vh.NewRecorder("C19", "datas-long-history", "exploration", c19LongRule,
+		"on the long-history shape only the focus commits are paired (a full 500x500 pair matrix is not explored)")
+	defer recLong.Write(t)
 	vh.Check(t, "pairs", 1500, 200, func(rt *rapid.T) { c19DatasCase(rt, rec) })
+	vh.Check(t, "long", 40, 15, func(rt *rapid.T) { c19LongCase(rt, recLong) })
 }
